@@ -954,7 +954,7 @@ def check_regrid(case, rec):
         lip = 2 * sc / dt
     else:
         lip = sc * TWO_PI * float(np.max(np.abs(b["freqs"])))
-    tol = 1e-12 * sc + lip * 8 * EPS * tmax
+    tol = 1e-12 * sc + lip * 32 * EPS * tmax
     prev = obj
     shared = 0
     bad = []
